@@ -32,7 +32,7 @@ R1 = "sales@example.com"
 BAD = ["bad", "x@y@z"]
 ROLES = [R1]
 FOLDERS = {"la": "INBOX", "lb": "D"}
-CLASS_NAMES = {1: "single_554", 2: "dup_rcpt_last_result", 3: "noboundary_unfetchable"}
+CLASS_NAMES = {2: "dup_rcpt_last_result", 3: "noboundary_unfetchable"}   # 1 = single_554, repaired by raven aeac4b2
 
 
 # --------------------------------------------------------------------------
@@ -140,7 +140,6 @@ class Scen:
         self.hist, self.txns, self.res = hist, txns, res
         self.trouble = None
         self.viol = []          # (txn index, kind, detail, narrow class or None)
-        self.refused_stale = []  # (txn index, detail)
         self.positions = 0
         self.accepted = 0
         self.digest()
@@ -200,8 +199,7 @@ class Scen:
                 if gone[k]:
                     self.viol.append((ti, "links_removed", "the transaction removed links %r from store %r" % (gone[k], k), None))
             if len(codes) != len(rs):
-                cls = "single_554" if (codes == [554] and not msg["p_ok"]) else None
-                self.viol.append((ti, "reply_count", "%d recipients, %d replies %r" % (len(rs), len(codes), codes), cls))
+                self.viol.append((ti, "reply_count", "%d recipients, %d replies %r" % (len(rs), len(codes), codes), None))
                 if any(new.values()):
                     self.viol.append((ti, "stored_without_acceptance", "links were added although no recipient was accepted: %r" % new, None))
                 continue
@@ -214,15 +212,6 @@ class Scen:
                     else:
                         acc.setdefault(k, []).append(i)
                         self.accepted += 1
-                else:
-                    k = key_of_rcpt(r)
-                    if k is not None and msg["p_ok"] and msg["shape"] != "broken" and target:
-                        stale = False
-                        for mb in (pre.get(k) or {}).get("mailboxes") or []:
-                            if mb[2] == target and any(l[2] == mb[0] and l[3] >= mb[4] for l in pre[k].get("links") or []):
-                                stale = True
-                        if stale:
-                            self.refused_stale.append((ti, "position %d <%s> refused with %d: the target mailbox %s holds a UID at or above its uid_next" % (i, r, codes[i], target)))
             for k in keys:
                 want = len(acc.get(k, []))
                 if len(new[k]) != want:
@@ -313,7 +302,7 @@ def gen_rs(rng):
 
 
 DIRECTED = [
-    # stale uid_next in INBOX: deliver, copy INBOX -> INBOX
+    # deliver, copy INBOX -> INBOX (left uid_next behind before raven 02d2f67)
     [{"k": "deliver", "folder": "INBOX"}, {"k": "select", "s": "c1", "name": "INBOX"},
      {"k": "uidcopy", "s": "c1", "set": [["one", 1]], "dest": "INBOX"}],
     # a gap: deliver, copy twice, expunge the first copy
@@ -384,9 +373,6 @@ def judge(chk, sc, ev, origin, stats):
         t = sc.txns[ti]
         chk.violation("transaction %d (%s, recipients %r, replies %r): %s: %s" % (ti, t["msg"]["kind"], t["rs"], sc.codes[ti], kind, detail),
                       dict(payload, txn=ti, finals=sc.finals[ti]), cls=cls)
-    for (ti, detail) in sc.refused_stale:
-        stats["known"]["stale_uidnext_refusal"] = stats["known"].get("stale_uidnext_refusal", 0) + 1
-        chk.violation("transaction %d: %s" % (ti, detail), dict(payload, txn=ti), cls="stale_uidnext_refusal")
     if not pre_ok:
         stats["hist_mismatch"] += 1
         return
@@ -537,6 +523,4 @@ def replay(path):
     print("[(agreement, class, model replies)] (element 0 = world before the first transaction):", evs[0] if evs else log[-1500:])
     for v in sc.viol:
         print("observed violation:", v)
-    for v in sc.refused_stale:
-        print("refusal:", v)
-    return 1 if (sc.viol or sc.refused_stale or (evs and any(e[0] != 0 for e in evs[0]))) else 0
+    return 1 if (sc.viol or (evs and any(e[0] != 0 for e in evs[0]))) else 0
